@@ -22,6 +22,9 @@ def optWire (o : Opt) : Nat := if single o.code then 1 else o.data.length + 2
 /-- `add_option` for every option in order, starting from `size_ = sizeof(uint32_t)` -/
 def sizeAfter (s : Nat) (os : List Opt) : Nat := os.foldl (fun s o => (s + optWire o) % 4294967296) s
 
+/-- `if (option_type != END && option_type != PAD) option_length = stream.read<uint8_t>();` -/
+def readLen (t : Nat) (c : Cursor) : Out (Nat × Cursor) := if !single t then c.readU8 else pure (0, c)
+
 /-- the `while (stream)` loop of the parsing constructor; every round consumes at least one byte, so `fuel` =
     remaining size suffices (`parseOpts_fuel`) -/
 def parseOpts : Nat → Cursor → Out (List Opt)
@@ -30,7 +33,7 @@ def parseOpts : Nat → Cursor → Out (List Opt)
     if !c.toBool then .ok [] else do
     let (t, c) ← c.readU8
     -- We should only read the length if it's not END nor PAD
-    let (len, c) ← if !single t then c.readU8 else pure (0, c)
+    let (len, c) ← readLen t c
     if !c.canRead len then .throw .malformedPacket else
     -- option(option_type, option_length, stream.pointer()): memcpy of `len` bytes from the raw pointer
     let data ← c.peek "DHCP::DHCP option payload" 0 len
